@@ -61,7 +61,7 @@ def _m2():
         ('app+', 'pl'), ('app+', 't1'), ('app+', 'tx'), ('app+', 'hi'),
         ('app+', 'once'),
         ('app-', 0),
-        ('alloc', 1), ('alloc', 2), ('alloc', 3), ('alloc', 0),
+        ('alloc', 1), ('alloc', 2), ('alloc', 3), ('alloc', 4), ('alloc', 0),
         ('srv', 's0', 1), ('srv', 's0', 2), ('srv', 's0', 0),
         ('srv', 's1', 1), ('srv', 's1', 0),
         ('pres-', 's0'), ('pres+', 's0', 1), ('pres+', 's0', 0),
